@@ -31,7 +31,7 @@ arguments, long histories, operations after refused or degraded ones, permissive
 well-meant additions (caches and fast paths, tolerances and fall-backs, new options and supported values, extra limits, logging) that leave every existing check in place; round 11 (`r11`) asked for
 modernisation / migration commits meant to change nothing (standard-library helpers for hand-written loops, other data types, another API of the same family, generics, reordered steps); round 12 (`r12`) asked for spec-alignment / interop
 commits (somebody re-read an RFC, DID Core or the reference implementation and "fixed" the library to match a misread clause); round 13 (`r13`, one change each for twelve properties) asked for
-error-handling and defaults commits ("skip bad entries instead of failing", "treat missing as empty", "log and continue"); round 14 (`r14`, four changes: C06, C09, C14, C20; a short round run in the last session to re-test independence: the agents got the bare statement and quantifier only, no earlier lists or angles) - all four were caught by the first run of their own quick check without any change to the harness; round 15 (`r15`: C04, C12, C16, C18; bare statement plus a request for multi-step sequences, two cooperating sites or rare-but-legal inputs) - again all four caught at first run (a commitment cache keyed without the RSA members, a replace value aliased into the working document plus an in-place key filter, short secp256k1 coordinates accepted, de-duplication of adjacent published operations only). One round-11 proposal for C18 was not kept (an Ed25519 JWK whose `x` is not 32 octets long: the unchanged tree pads or truncates it, the change refuses the document; the statement says nothing about
+error-handling and defaults commits ("skip bad entries instead of failing", "treat missing as empty", "log and continue"); round 14 (`r14`, four changes: C06, C09, C14, C20; a short round run in the last session to re-test independence: the agents got the bare statement and quantifier only, no earlier lists or angles) - all four were caught by the first run of their own quick check without any change to the harness; round 15 (`r15`: C04, C12, C16, C18; bare statement plus a request for multi-step sequences, two cooperating sites or rare-but-legal inputs) - again all four caught at first run (a commitment cache keyed without the RSA members, a replace value aliased into the working document plus an in-place key filter, short secp256k1 coordinates accepted, de-duplication of adjacent published operations only); round 16 (`r16`: C01, C07, C11, C17; same brief as round 15) - all four caught at first run (an empty document no longer copied before patching, so a later non-applicable patch leaves a partial document; the key re-use rule evaluated with the first configured algorithm only; a `from` pointer with text before the first `/` accepted on move; initial state compared as decoded bytes, letting line breaks and trailing bits through). Across rounds 14-16 twelve independent changes were tried against an unchanged harness and none was missed. One round-11 proposal for C18 was not kept (an Ed25519 JWK whose `x` is not 32 octets long: the unchanged tree pads or truncates it, the change refuses the document; the statement says nothing about
 malformed key material, and refusing is the better answer). Two round-9 proposals for C20 were confirmed but not kept, because they
 manifest only when two concurrent calls share an input object (one version list handed to several `verprovider.New` calls, documents sharing
 the backing array of a relationship list) and the statement speaks of concurrent calls on distinct inputs; a trial version of the
